@@ -1077,7 +1077,12 @@ func (w *world) barrier1() {
 		if w.markerBlind(n) {
 			continue
 		}
-		if !n.cb.waitMark(rv, wedgeBound+wedgeConfirm) {
+		bound := wedgeBound + wedgeConfirm
+		if isWedgeSeen() {
+			bound = wedgeAfter // (a wedge was already confirmed in this process: the shrinker's re-runs need not wait as long)
+		}
+		if !n.cb.waitMark(rv, bound) {
+			setWedgeSeen()
 			if isClosedCh(n.mon.Done()) {
 				w.fail("monitor %s is Done() although neither it nor an ancestor was closed", n.path())
 			}
